@@ -686,7 +686,6 @@ func fed10AbstractMode(r *core.Run) int {
 	return 0
 }
 
-
 // extraKeysOnly: f is the fault-free value f0 with subtrees nulled or missing, except that objects of
 // f may carry additional keys (payloads merged at a wrong place); values under keys both have agree.
 func extraKeysOnly(f, f0 any) bool {
